@@ -378,6 +378,7 @@ extern "C" void nsim_watch_set (int slot, const void *p) {
 	g.watch[slot].addr = (uintptr_t) p; g.watch[slot].first_tid = -1; g.watch[slot].active = 1;
 }
 extern "C" int nsim_watch_first_writer (int slot) { return (slot >= 0 && slot < NSIM_MAXWATCH && g.watch[slot].active) ? g.watch[slot].first_tid : -1; }
+extern "C" void nsim_watch_arm_on_store (int slot, const char *func) { if (g.cur) { g.cur->aw_slot = slot; g.cur->aw_func = func; } }
 extern "C" void nsim_watch_clear (int slot) {
 	if (slot < 0 || slot >= NSIM_MAXWATCH || !g.watch[slot].active) return;
 	g.watch[slot].active = 0; g.nwatch--;
@@ -888,6 +889,10 @@ extern "C" void __tsan_atomic32_store (volatile uint32_t *p, uint32_t v, int mo)
 	uintptr_t pc = (uintptr_t) __builtin_return_address (0);
 	atomic_prologue ((uintptr_t) p, true, pc);
 	*p = v;
+	if (f->aw_func && strstr (rt_symname (pc), f->aw_func)) {
+		nsim_watch_set (f->aw_slot, (const void *) p);
+		f->aw_func = NULL;
+	}
 	if (nsim_cfg.hb_on) {
 		SyncVar *s = syncvar ((uintptr_t) p);
 		if (mo_rel (mo)) { vc_copy (s->L, f->vc); s->has = true; f->vc[f->tid]++; }
